@@ -81,6 +81,7 @@ int main (int argc, char **argv)
 	int quiet_log = 1;
 	(void) argc; (void) argv;
 	qsx_capture_init ();
+	if (getenv ("QSX_SCRATCH") && chdir (getenv ("QSX_SCRATCH"))) qsx_die ("cannot enter QSX_SCRATCH");
 	QSexactStart ();
 	if (quiet_log) QSlog_set_handler (qsx_log_sink, NULL);
 #ifdef QSX_VERIF
@@ -100,6 +101,24 @@ int main (int argc, char **argv)
 			if (P) mpq_QSfree_prob (P);
 			P = qsx_read_lp (in);
 			printf ("LP %s\n", P ? "OK" : "ERR");
+		}
+		else if (!strcmp (op, "MKFILE"))
+		{
+			/* MKFILE <name> <hex bytes | -> : create a file in the scratch directory (scripts stay self-contained) */
+			FILE *f = fopen (qsx_tok[1], "wb");
+			const char *h = qsx_ntok > 2 ? qsx_tok[2] : "-";
+			if (f)
+			{
+				if (strcmp (h, "-"))
+					for (; h[0] && h[1]; h += 2)
+					{
+						unsigned int b = 0;
+						sscanf (h, "%2x", &b);
+						fputc ((int) b, f);
+					}
+				fclose (f);
+			}
+			printf ("MKFILE %s\n", f ? "OK" : "ERR");
 		}
 		else if (!strcmp (op, "READPROB"))
 		{
@@ -283,7 +302,9 @@ int main (int argc, char **argv)
 		fflush (stdout);
 	}
 	if (P) mpq_QSfree_prob (P);
+	if (KEPT) free_basis (KEPT);
 	QSexactClear ();
+	free (qsx_line); free (qsx_tok);
 	qsx_capture_report ();
 	fflush (qsx_out);
 	return 0;
